@@ -46,6 +46,11 @@ func runC11(c *core.Ctx) {
 	// the typed subscription channels of the generated proxies end too (rule shared with C13)
 	c.Doc("C13.forwarding", "one forwarding goroutine per subscription, no go in the loop, channel closed once per exit", 6)
 	ruleForwarders(c, a)
+	// shutdown closes the queue of every handler: two handlers given one channel (two
+	// disconnect callbacks sharing an idle queue) make the second close panic in a
+	// library goroutine (rule shared with C17)
+	c.Doc("C17.queue-owner", "every MakeHandler gets a private queue made by the registering function (shutdown closes each handler's queue once) — rule shared with C17", 8)
+	ruleQueueOwnership(c, a, "C17.queue-owner")
 }
 
 func ruleReadErrorCloses(c *core.Ctx, a *epAnchors) {
@@ -171,8 +176,29 @@ func ruleShutdown(c *core.Ctx, a *epAnchors) {
 			free = false
 		}
 	}
+	// … and before it: a call that registers its handler after the sweep must find the
+	// stream closed when it sends (otherwise nobody ever tells it), and a dispatch blocked
+	// in a write under the mutex is only released by the close — taking the mutex first
+	// waits for it for ever
+	for _, call := range core.Calls(fn) {
+		op, isOp := core.LockOpOf(call)
+		if !isOp || op.Class != a.class || (op.Kind != core.OpLock && op.Kind != core.OpRLock) {
+			continue
+		}
+		in := call.(ssa.Instruction)
+		if !core.MustPassBefore(fn, in, func(x ssa.Instruction) bool {
+			for _, cl := range closeCalls {
+				if cl == x {
+					return true
+				}
+			}
+			return false
+		}) {
+			free = false
+		}
+	}
 	c.Check(free, rule, "bus/net.endPoint.closeWith/stream-close-unlocked", fn.Pos(), "the stream is closed before handlersMutex is taken",
-		"the stream is closed while holding handlersMutex: dispatch can hold that mutex while blocked writing to a peer that does not read, so Close waits for the mutex and the writer waits for the stream (deadlock, handlers are never closed)")
+		"the stream is not closed before handlersMutex is taken (it is closed while holding it, or after the handlers were swept): dispatch can hold that mutex while blocked writing to a peer that does not read, so Close waits for the mutex and the writer waits for the stream (deadlock, handlers are never closed); and a call registering after the sweep sends on a stream that still works and is never told")
 
 	// … nor any other lock that some goroutine holds while it writes to (or reads
 	// from) the stream: a peer that stops reading blocks that goroutine inside the
@@ -372,6 +398,7 @@ type clientCall struct {
 	send           ssa.CallInstruction // first EndPoint.Send
 	filter, closer *ssa.Function
 	subst          map[*ssa.Parameter]ssa.Value // factory parameters of the filter -> arguments in Call
+	closerSubst    map[*ssa.Parameter]ssa.Value // the same for the closer's factory
 	queue          ssa.Value
 	site           handlerSite
 }
@@ -388,7 +415,7 @@ func getClientCall(c *core.Ctx, a *epAnchors, rule string) *clientCall {
 			cc.make = s.call
 			cc.site = s
 			cc.filter, cc.subst, _ = funcValueCtx(s.filter)
-			cc.closer, _ = funcValue(s.closer)
+			cc.closer, cc.closerSubst, _ = funcValueCtx(s.closer)
 			cc.queue = core.Canon(s.queue)
 		}
 	}
@@ -530,7 +557,7 @@ func ruleCallWaits(c *core.Ctx, a *epAnchors) {
 		for _, b := range cc.closer.Blocks {
 			for _, in := range b.Instrs {
 				if sd, ok := in.(*ssa.Send); ok {
-					errChan = core.Canon(sd.Chan)
+					errChan = core.Canon(substValue(cc.closerSubst, sd.Chan)) // captured, or handed to the closer's factory
 					okArg := len(cc.closer.Params) == 1 && core.Canon(sd.X) == ssa.Value(cc.closer.Params[0])
 					isErrP := func(v ssa.Value) bool { return core.Canon(v) == ssa.Value(cc.closer.Params[0]) }
 					c.Check(okArg && core.Guarded(cc.closer, sd, core.Ne(isErrP, core.IsNilConst)) || okArg, rule, "bus.client.Call/closer-forwards", sd.Pos(),
@@ -552,6 +579,18 @@ func ruleCallWaits(c *core.Ctx, a *epAnchors) {
 			for _, u := range allUses(mk) {
 				if _, ok := u.(*ssa.Send); ok {
 					n++
+				}
+			}
+			if n == 0 && len(cc.closerSubst) > 0 {
+				// the only sender is the closer built by the factory the channel was handed to:
+				// the channel must not go anywhere else
+				n = 1
+				for _, u := range allUses(mk) {
+					if call, ok := u.(ssa.CallInstruction); ok {
+						if fc, _, _ := funcValueCtx(cc.site.closer); fc != cc.closer || !callReturnsValue(call, cc.site.closer) {
+							n = 2
+						}
+					}
 				}
 			}
 			good = good && n == 1
@@ -813,4 +852,10 @@ func ruleSubscriptionsClose(c *core.Ctx, a *epAnchors) {
 		}
 	}
 	c.Check(good, rule, "bus.client.OnDisconnect/closer", od.Pos(), "the callback is registered as the closer of a handler", "OnDisconnect does not register the user's callback as a handler closer: it never fires")
+}
+
+// callReturnsValue: v is (after Canon) the result of call.
+func callReturnsValue(call ssa.CallInstruction, v ssa.Value) bool {
+	cv, ok := call.(*ssa.Call)
+	return ok && core.Canon(v) == ssa.Value(cv)
 }
